@@ -58,6 +58,18 @@ def programs(tier):
     add("widths", [Let("v", Struct(W, [("a", Int(-128 + 1, "int8", suffix=True)), ("b", Int(18446744073709551615, "uint64", suffix=True)),
                                        ("c", Int(-9223372036854775807, "int64", suffix=True)), ("d", Int(255, "uint8", suffix=True))]), ty=W)] + both("v", "W"), expect="accept")
     add("empty-struct", [Let("v", Struct(TAdt("Z"), []), ty=TAdt("Z"))] + both("v", "Z"), expect="accept")
+    # unit-typed payloads and fields at every position (first / middle / last / alone / all), next to values of other types
+    def udecl(p):
+        p.enum("U", [("U1", [UNIT]), ("U2", [INT32, UNIT]), ("U3", [UNIT, INT32, INT32]), ("U4", [UNIT, STRING, UNIT]), ("U5", [P, UNIT, C]), ("U6", [UNIT, UNIT])], derives=BOTH)
+        p.struct("Us", [("a", UNIT), ("b", INT32), ("c", UNIT), ("d", STRING), ("e", UNIT)], derives=BOTH)
+    UU = TAdt("U")
+    uvals = {"alone": Ctor(UU, "U1", Unit), "last": Ctor(UU, "U2", Int(7), Unit), "first": Ctor(UU, "U3", Unit, Int(8), Int(9)),
+             "both-ends": Ctor(UU, "U4", Unit, Str("s"), Unit), "middle": Ctor(UU, "U5", pval(1, Str("in"), True), Unit, Ctor(C, "G", Int(5))),
+             "all": Ctor(UU, "U6", Unit, Unit)}
+    for name, v in uvals.items():
+        add(f"unit-payload:{name}", [Let("v", v, ty=UU)] + both("v", "U"), expect="accept", extra_decl=udecl)
+    add("unit-fields", [Let("v", Struct(TAdt("Us"), [("a", Unit), ("b", Int(1)), ("c", Unit), ("d", Str("x")), ("e", Unit)]), ty=TAdt("Us"))] + both("v", "Us"),
+        expect="accept", extra_decl=udecl)
     # strings: every special character, alone and in company (written through multi-line string literals, which need a line feed)
     for name, b in SPECIAL.items():
         add(f"json-string:{name}", [Let("s", Str(bytes([97, b, 98]))), Let("v", pval(1, Var("s"), True), ty=P)] + both("v", "P"), expect="accept")
